@@ -94,7 +94,8 @@ class _Bin1d:
     @classmethod
     def accepts(cls, c, p, bins, tol, right_continuous):
         from pyvc.core import is_sym
-        if not isinstance(p, Arr) or not hasattr(bins, 'grid'):
+        from pyvc.core import valid_grid
+        if not isinstance(p, Arr) or not isinstance(bins, Arr) or valid_grid(bins) is None:
             return False
         return (p.dtype == cls.pdtype and bins.dtype == cls.bdtype and (p.ndim == 0) == cls.scalar
                 and (tol is not None) == cls.with_tol)
@@ -419,3 +420,47 @@ class ComputeLikelihood:
             yield 'normalised score defined only with events, n_obs != 0 and E != 0', z3.And(z3.Not(empty), n_obs != 0, E != 0)
             lln = _rs(lambda i: z3.If(g.f((i,)) != 0, g.f((i,)) * LOG(rate.f((i,)) / tot_rate), z3.RealVal(0)), n)
             yield 'normalised score == sum_{g>0} g*log(rate/sum rate) / sum g', to_real(lnorm) * total == lln
+
+
+@contract
+class Discretize:
+    """discretize(data, bin_edges): every value replaced by the lower edge of its bin; a value below the first edge is an error"""
+    qualname = 'csep.utils.calc.discretize'
+    case = 'data:float64[], equally spaced edges, right_continuous=False'
+    properties = ('C02',)
+
+    def params(c):
+        return dict(data=c.arr('data', 'float64'), bin_edges=grid(c, 'bin_edges', 'float64'), right_continuous=False)
+
+    def requires(c, data, bin_edges, right_continuous):
+        return Bin1d_f64.requires(c, data, bin_edges, None, False) + [to_z3(bin_edges.grid[2]) >= 2, to_real(bin_edges.grid[1]) > 0]
+
+    def raises(c, exc, data, bin_edges, right_continuous):
+        if exc.name != 'CSEPException':
+            return None
+        a0 = to_real(bin_edges.grid[0])
+        i = z3.Int('i!ex')
+        call = None
+        for cl in c.calls('csep.utils.calc.bin1d_vec'):
+            call = cl
+        idx = call[2] if call else None
+        out = [('the binning is done by bin1d_vec on the data and the edges given', z3.BoolVal(call is not None))]
+        if idx is not None:
+            out.append(('raises only if some value is binned to -1 (below the first edge)',
+                        z3.Exists([i], z3.And(0 <= i, i < data.n, to_z3(idx.f((i,))) == -1))))
+        return out
+
+    def ensures(c, r, data, bin_edges, right_continuous):
+        a0, h, M = bin_edges.grid
+        calls = c.calls('csep.utils.calc.bin1d_vec')
+        yield 'one call of bin1d_vec', z3.BoolVal(len(calls) == 1)
+        if not calls:
+            return
+        loc, idx = calls[0][1], calls[0][2]
+        yield 'binned with the given closure mode', z3.BoolVal(loc.get('right_continuous') is right_continuous)
+        i = c.ctx.fresh_int('i!sk')
+        inr = z3.And(0 <= i, i < data.n)
+        yield 'one value per input value', to_z3(r.shape[0]) == data.n
+        yield 'no value was binned to -1', z3.Implies(inr, to_z3(idx.f((i,))) >= 0)
+        yield 'value i is replaced by the lower edge of its bin: a0 + idx_i * h', z3.Implies(
+            inr, to_real(r.f((i,))) == to_real(a0) + z3.ToReal(to_z3(idx.f((i,)))) * to_real(h))
